@@ -242,6 +242,12 @@ class Mix(Scenario):
         if it.pub in ('rx3', 'rx4', 'rx3bp', 'rx4bp'):
             return self._rx_publisher(w, it, side, role, count)
 
+        if it.pub == 'sync':
+            from mc.app import SyncPublisher
+            pub = SyncPublisher(w, side, 'pub' + it.tag + role, [it.pay(role, i) for i in range(count)], flag=(ending == 'flag'))
+            st['pub' + role] = pub
+            return pub
+
         pname = 'pub' + it.tag + role
 
         def gen():
